@@ -101,3 +101,27 @@ def skip_sp_props(s: Str, i: Int, m: Int):
     induct(m)
     generalize(i)
     measure(m, len(s) - i)
+
+
+@spec
+def split_from(s: Str, d: Str, allow_ws: Bool, preserve: Bool, cidx: Int) -> Seq[Str]:
+    # the fields of s from position cidx on (the dialect applied field by field, left to right)
+    if cidx < 0 or cidx >= len(s):
+        return []
+    return [field_text(s, d, cidx, allow_ws, preserve)] + split_from(s, d, allow_ws, preserve, field_stop(s, d, cidx, allow_ws) + 1)
+
+
+@spec
+def warn_from(s: Str, d: Str, allow_ws: Bool, cidx: Int) -> Bool:
+    # some field at or after cidx is taken as unquoted and contains a double quote
+    if cidx < 0 or cidx >= len(s):
+        return False
+    return field_warn(s, d, cidx, allow_ws) or warn_from(s, d, allow_ws, field_stop(s, d, cidx, allow_ws) + 1)
+
+
+@spec
+def split_spec(s: Str, d: Str, preserve: Bool) -> Seq[Str]:
+    # quoted policy: all fields; a line ending in the delimiter has a final empty field
+    if len(s) > 0 and s[-1] == d:
+        return split_from(s, d, d != ' ', preserve, 0) + ['']
+    return split_from(s, d, d != ' ', preserve, 0)
